@@ -62,6 +62,7 @@ def grammar_files():
         "errs": v + "/corpus/errs.pest",
         "ws": v + "/corpus/ws.pest",
         "rec": v + "/corpus/rec.pest",
+        "cycles": v + "/corpus/cycles.pest",
     }
     bad = {n: v + "/corpus/bad/%s.pest" % n for n in ("leftrec", "undefined", "nonprogress", "syntaxerr", "duplicate")}
     for p in list(good.values()) + list(bad.values()):
